@@ -115,7 +115,8 @@ def kfacts(K, m):
          '  have k1 : ¬ (ic.rho_0 ≤ 0) := not_le.mpr hr0',
          '  have k2 : ¬ (ic.P_0 < 0) := not_lt.mpr hP0']
     if n == 3 and m > 0:
-        o.append('  have k3 := eq_true (hm (by norm_num))')
+        o.append('  have hPz : ic.P_0 = 0 := hm (by norm_num)')
+        o.append('  have k3 := eq_true hPz')
     elif n == 2:
         o.append('  have k3 := eq_true hP')
     else:
@@ -131,11 +132,11 @@ def hyps(K, m):
     return h
 
 
-SIMPK = 'k0, k1, k2, k3, if_true, if_false'
+SIMPK = 'k0, k1, k2, k3, if_true, if_false, lt_self_iff_false'
 MAT = 'Matrix.of_apply, Matrix.cons_val, Fin.zero_eta, Fin.mk_one, Fin.reduceFinMk, Fin.isValue'
 
 
-def entry(K, m, i, j, indent='    '):
+def entry(K, m, i, j, indent='    ', xs=''):
     """proof of one entry: HasDerivAt (fun v => F … i) (J … i j) point"""
     c = CLASSES[K]
     n = c['n']
@@ -164,19 +165,19 @@ def entry(K, m, i, j, indent='    '):
     else:
         o.append('  filter_upwards with r')
         o.append('  have hr := hρ')
-    o.append('  simp only [%s.F, hp, epv_c16, epv_tree, epv_cond, epv_leaf, hr, %s, %s]' % (ns, SIMPK, MAT))
+    o.append('  simp only [%s.F, hp, epv_c16, epv_tree, epv_cond, epv_leaf, hr, %s%s, %s]' % (ns, xs, SIMPK, MAT))
     o.append('  try ring')
     if eosdep:
         o.append('refine (((hs.%d.sub_const _).add hc).congr_of_eventuallyEq hev).congr_deriv ?_' % (j + 1))
     else:
         o.append('refine (hc.congr_of_eventuallyEq hev).congr_deriv ?_')
-    o.append('simp only [%s.J, hp, epv_c16, epv_tree, epv_cond, epv_leaf, epv_deriv, hρ, %s, %s]' % (ns, SIMPK, MAT))
+    o.append('simp only [%s.J, hp, epv_c16, epv_tree, epv_cond, epv_leaf, epv_deriv, hρ, %s%s, %s]' % (ns, xs, SIMPK, MAT))
     o.append('try field_simp')
     o.append('try ring')
     return [indent + x for x in o]
 
 
-def jac_theorem(K, m, skip=(), name=None, doc=None, extra_hyp=''):
+def jac_theorem(K, m, skip=(), name=None, doc=None, extra_hyp='', xs=''):
     c = CLASSES[K]
     n = c['n']
     ns = '%sS%d' % (K, m)
@@ -201,16 +202,16 @@ def jac_theorem(K, m, skip=(), name=None, doc=None, extra_hyp=''):
         ents = [(i, j) for i in range(n) for j in range(n) if (i, j) not in skip]
         o.append('  refine ⟨%s⟩' % ', '.join('?_' for _ in ents))
         for (i, j) in ents:
-            e = entry(K, m, i, j, indent='    ')
+            e = entry(K, m, i, j, indent='    ', xs=xs)
             e[0] = '  · ' + e[0].lstrip()
             o += e
     else:
         o.append('  intro i')
-        o.append('  fin_cases i')
+        o.append('  fin_cases i <;> (try simp only [Fin.zero_eta, Fin.mk_one, Fin.reduceFinMk])')
         for i in range(n):
             o.append('  · refine ⟨%s⟩' % ', '.join('?_' for _ in range(n)))
             for j in range(n):
-                e = entry(K, m, i, j, indent='      ')
+                e = entry(K, m, i, j, indent='      ', xs=xs)
                 e[0] = '    · ' + e[0].lstrip()
                 o += e
     o.append('')
@@ -230,8 +231,7 @@ def det_theorems(K, m):
     o += kfacts(K, m)
     o.append('  rw [Matrix.det_fin_%s]' % {2: 'two', 3: 'three'}[n])
     o.append('  simp only [%s.detv, %s.J, epv_c16, epv_tree, epv_cond, epv_leaf, hρ, %s, %s]' % (ns, ns, SIMPK, MAT))
-    o.append('  try split_ifs')
-    o.append('  all_goals ring')
+    o.append('  ring')
     o.append('')
     o.append('/-- `F_prime_inv · F_prime = 1` wherever the class does not raise `ZeroDeterminantError` (`determinant ≠ 0`) -/')
     o.append('theorem %s_inverse (s : EOS) (ic : NohIC) (%s : ℝ) %s (hρ : ρ ≠ 0)%s\n    (hdet : %s.detv s ic %s ≠ 0) :\n    %s.Jinv s ic %s * %s.J s ic %s = 1 := by' % (
@@ -239,13 +239,11 @@ def det_theorems(K, m):
     o += kfacts(K, m)
     o.append('  generalize hd : %s.detv s ic %s = d at hdet' % (ns, a))
     o.append('  simp only [%s.detv, epv_c16, epv_tree, epv_cond, epv_leaf, hρ, %s] at hd' % (ns, SIMPK))
-    o.append('  (try split_ifs at hd with hz) <;> (try (exact absurd (hz.trans hd.symm ▸ rfl) hdet)) <;> (try (exact absurd (hd ▸ hz) hdet))')
-    o.append('  all_goals (')
-    o.append('    ext i j')
-    o.append('    fin_cases i <;> fin_cases j <;>')
-    o.append('      simp only [%s.Jinv, %s.J, epv_c16, epv_tree, epv_cond, epv_leaf, hρ, hd, hdet, %s,' % (ns, ns, SIMPK))
-    o.append('        Matrix.mul_apply, Fin.sum_univ_%s, Matrix.one_apply, Fin.reduceEq, %s] <;>' % ({2: 'two', 3: 'three'}[n], MAT))
-    o.append('      (try field_simp) <;> (try ring))')
+    o.append('  ext i j')
+    o.append('  fin_cases i <;> fin_cases j <;>')
+    o.append('    simp only [%s.Jinv, %s.J, epv_c16, epv_tree, epv_cond, epv_leaf, hρ, hd, hdet, %s,' % (ns, ns, SIMPK))
+    o.append('      Matrix.mul_apply, Fin.sum_univ_%s, Matrix.one_apply, Fin.reduceEq, %s] <;>' % ({2: 'two', 3: 'three'}[n], MAT))
+    o.append('    (try field_simp) <;> (try simp only [← hd]) <;> (try field_simp) <;> (try ring)')
     o.append('')
     return o
 
@@ -315,23 +313,26 @@ def props_file(K):
          'C16 — `%s` over an abstract equation of state: every entry of `F_prime` is the partial' % c['py'],
          'derivative of the corresponding component of `F` (given that the EOS derivative methods are correct at the state),',
          '`determinant` is the determinant of `F_prime`, and `F_prime_inv · F_prime = 1` wherever `determinant ≠ 0`.',
-         'One theorem per symmetry m = 0, 1, 2 (planar, cylindrical, spherical).  Hypotheses: what the constructor accepts',
-         '(`NohIC.Admissible m`), ρ ≠ 0 (the guard of every method) and D ≠ 0 (the code divides by D).',
+         ('One theorem per symmetry m = 0, 1, 2 (planar, cylindrical, spherical).  Hypotheses: what the constructor accepts' if c['n'] == 3 else
+          'Planar symmetry and P₀ = 0 only (what the constructor accepts).  Hypotheses: what the constructor accepts'),
+         ('(`NohIC.Admissible m`), ρ ≠ 0 (the guard of every method) and D ≠ 0 (the code divides by D).' if c['n'] == 3 else
+          '(`NohIC.Admissible 0` and P₀ = 0) and ρ ≠ 0 (the guard of every method).  Inverse and determinant are hand-coded in the class.'),
          '-/', 'import EPV.Lemmas.C16ResDefs', '', 'set_option linter.all false', 'set_option maxHeartbeats 1000000', '',
          'open EPV EPV.Gen EPV.Spec', '', 'namespace EPV.C16', '']
     pins = ' ∧ '.join('Res%sAbsS%d_res.okLeaves = %s' % (K, m, ok_leaf('Res%sAbsS%d_res' % (K, m))) for m in syms(K))
     o.append('/-- the traced models have exactly the leaves the proofs below name -/')
-    o.append('theorem res%s_leaves : %s := ⟨%s⟩' % (K, pins, ', '.join('rfl' for _ in syms(K))))
+    o.append('theorem res%s_leaves : %s := %s' % (K, pins, ('⟨%s⟩' % ', '.join('rfl' for _ in syms(K))) if len(syms(K)) > 1 else 'rfl'))
     o.append('')
     for m in syms(K):
         if K == 'Pressure' and m == 0:
             o += jac_theorem(K, m, skip=[(2, 0)], name='pressureS0_jacobian_partial',
                              doc='`pressure_noh_residual`, planar: every entry of `F_prime` EXCEPT `DF[2,0]` is the partial derivative of the '
                                  'corresponding component of `F` — `_partial`: `DF[2,0]` has the wrong sign when P₀ ≠ 0 (finding `pressure_DF20_finding`)')
-            o += jac_theorem(K, m, name='pressureS0_jacobian_P0_zero', extra_hyp=' (hP : ic.P_0 = 0)',
+            o += jac_theorem(K, m, name='pressureS0_jacobian_P0_zero', extra_hyp=' (hP : ic.P_0 = 0)', xs='hP, ',
                              doc='`pressure_noh_residual`, planar, P₀ = 0: the whole `F_prime` is the Jacobian of `F`')
         else:
-            o += jac_theorem(K, m)
+            # for m > 0 the constructor forces P_0 = 0, which the (wrong-signed) entry DF[2,0] of the pressure residual needs
+            o += jac_theorem(K, m, xs=('hPz, ' if (K == 'Pressure' and m > 0) else ''))
         o += det_theorems(K, m)
     o += ['/-- non-vacuity: the default initial state ρ₀ = 1, u₀ = -1, P₀ = 0 is admissible in every symmetry -/',
           'example : (⟨1, -1, 0⟩ : NohIC).Admissible 0 ∧ (⟨1, -1, 0⟩ : NohIC).Admissible 1 ∧ (⟨1, -1, 0⟩ : NohIC).Admissible 2 := by',
@@ -367,3 +368,4 @@ if __name__ == '__main__':
     write(os.path.join(EPV, 'Props', 'C16', 'ResEnergy.lean'), props_file('Energy'))
     write(os.path.join(EPV, 'Props', 'C16', 'ResPressure.lean'), props_file('Pressure'))
     write(os.path.join(EPV, 'Props', 'C02', 'BBNohResidual.lean'), c02_file())
+    write(os.path.join(EPV, 'Props', 'C16', 'ResSEnergy.lean'), props_file('SEnergy'))
